@@ -35,8 +35,13 @@ def evaluate(jobs, rc_key="rc", only=None, prior=None):
                 out[n] = ("missing_or_canceled", None)
             else:
                 out[n] = ("missing", None)
-        elif j["flag"] and any(c in ("failed", "canceled") for c, _ in bl):
+        elif j["flag"] and any(c in ("failed", "canceled") for (c, _), b in zip(bl, j["blocked_by"]) if only is None or b in only):
             out[n] = ("canceled", 1)
+        elif j["flag"] and any(c in ("failed", "canceled", "either") for c, _ in bl):
+            # resubmission: a blocker that is NOT rerun keeps an earlier failed/canceled outcome (or a rerun blocker is
+            # itself ambiguous).  The property does not say whether that cancels the rerun dependent: accept both.
+            rc = j[rc_key]
+            out[n] = ("either", rc)
         else:
             rc = j[rc_key]
             out[n] = ("successful" if rc == 0 else "failed", rc)
